@@ -5,27 +5,46 @@
    One level of JSONLoadItem is [load_item_level rec] (Section Level), with the loader of embedded values as
    a parameter; [load_item] ties the knot over the fuel.  The getters are top-level definitions so that
    Proofs/DecEquivP.v and Proofs/ShapeP.v can state lemmas about each of them. *)
-From AP.Model Require Import Prelude Bytes Vocab Pred Url IriEq Nlv Text Equal Coll Dispatch Layout JsonTables JsonLeaf JsonCheck.
+From AP.Model Require Import Prelude Bytes Vocab Pred Url IriEq CollIri UrlU Nlv Text Equal Coll Dispatch Layout JsonTables JsonLeaf JsonCheck.
 Open Scope Z_scope.
 
 Definition jget (v : fjv) (k : bytes) : option fjv := fj_get false v k.
 Definition jstr (v : option fjv) : bytes := match v with Some x => fj_string_bytes x | None => [] end.
 
-(* asIRI: strings.Trim(val.String(), quote) then url.ParseRequestURI with scheme and host required.
-   Modelled on the URL grammar of Model/Url.v (no byte that Value.String() would escape): Some (Some s) = an
-   IRI, Some None = not an IRI, None = outside the grammar *)
+(* asIRI (as repaired: "fix: an IRI whose fragment follows the host directly ..."): strings.Trim(val.String(), quote),
+   then url.Parse must succeed with a scheme and a host.
+   Value.String() of a string value writes it back as JSON: when the text holds a quote, a backslash or a byte below
+   0x20 it is re-escaped (strconv.AppendQuote) and asIRI sees the ESCAPED text - outside the model (None).  Otherwise
+   asIRI sees the text itself, and the test is url_classify_u of Model/UrlU.v (net/url on all byte strings: bytes >= 0x80,
+   percent-escapes, spaces ...; userinfo and IP literals are outside that model: None).
+   Some (Some s) = an IRI, Some None = not an IRI, None = outside the model. *)
+Definition fj_has_special (s : bytes) : bool :=
+  existsb (fun b => Byte.eqb b x22 || Byte.eqb b x5c || (byteN b <? 32)%N) s.
 Definition as_iri (v : fjv) : option (option bytes) :=
   match v with
   | FStr raw =>
       let s := fj_unescape raw in
-      match url_classify s with
-      | UValid _ => Some (Some s)
-      | UFallback => Some None
-      | UUnmodelled => None
-      end
+      if fj_has_special s then None
+      else match url_classify_u s with
+           | UValid _ => Some (Some s)
+           | UFallback => Some None
+           | UUnmodelled => None
+           end
   | _ => Some None
   end.
-
+(* the pinned tree called url.ParseRequestURI, which does not cut the fragment: "scheme://host#fragment" was refused *)
+Definition as_iri_pinned (v : fjv) : option (option bytes) :=
+  match v with
+  | FStr raw =>
+      let s := fj_unescape raw in
+      if fj_has_special s then None
+      else match request_iri_ok s with
+           | Some true => Some (Some s)
+           | Some false => Some None
+           | None => None
+           end
+  | _ => Some None
+  end.
 (* ---- scalars ---- *)
 Definition digit_val (b : byte) : option Z :=
   if is_digit b then Some (Z.of_N (byteN b) - 48) else None.
